@@ -281,6 +281,15 @@ def impl_chain(ctx, prog):
                 fa = list(r[2])
                 # shifts convert the amount with `as u32`; casts are transparent in the abstract domain
                 good = last == std and fa == args and (ty in r[1] or 'ops::' in r[1] or 'intrinsics' in r[1])
+                if not good and ty == 'i64':
+                    # the operator forms of the same functions: `a & b`, `a | b`, `a ^ b`, `!a`, and a shift by the amount masked to the
+                    # low six bits - which is what wrapping_shl / wrapping_shr compute (mask = BITS - 1 exactly)
+                    OPS = {'bitand': 'binop:BitAnd', 'bitor': 'binop:BitOr', 'bitxor': 'binop:BitXor', 'bitnot': 'unop:Not', 'bit_shift_left': 'binop:Shl', 'bit_shift_right': 'binop:Shr'}
+                    if m in ('bitand', 'bitor', 'bitxor', 'bitnot'):
+                        good = r[1] == OPS[m] and fa == args
+                    elif m in ('bit_shift_left', 'bit_shift_right') and r[1] == OPS[m] and len(fa) == 2 and fa[0] == args[0]:
+                        amt = fa[1]
+                        good = amt[0] == 'app' and amt[1] == 'binop:BitAnd' and len(amt[2]) == 2 and ((amt[2][0] == args[1] and amt[2][1] == C(63)) or (amt[2][1] == args[1] and amt[2][0] == C(63)))
             n += 1
             ctx.check(good, 'R10.1', '<%s as %s>::%s' % (ty, tr, m), 'impl-chain', '%s::%s forwards to %s::%s with its parameters in order (found %s)' % (tr, m, ty, std, got), span=g.span)
     ctx.floor('R10.1', 'impl_chain_methods', n, 38)
